@@ -1,5 +1,5 @@
 (* Identifier-like names in Fun programs, and well-formedness of the types written in declarations:
-   the two boolean guards of the C15 theorems about programs with type parameters
+   the boolean guard(s) of the C15 theorems about programs with type parameters
    (Props/C15.v, Proof/CheckPoly*.v).  Executable, so that `modelrun check` can test on every
    compared input that the guard on names holds (it does for every parsed program: the lexer's name
    classes are [A-Z][a-zA-Z0-9_]* and [a-z][a-zA-Z0-9_]*, and i64 is a keyword).
@@ -61,7 +61,8 @@ Definition decl_names_ok (d : fdecl) : bool :=
    " " and is not "i64" *)
 Definition prog_names_ok (p : fprog) : bool := forallb decl_names_ok (fpdecls p).
 
-(* the part of [decls_ok] the checker does not establish: every type written in a data/codata
+(* the part of [decls_ok] the checker did not establish until fix <commit15> of /repo (now it does:
+   Proof/CheckDecls.v check_gen_decl_types_wf): every type written in a data/codata
    declaration is i64, a parameter without arguments, or a declared type with the right number of
    well-formed arguments *)
 Definition decl_types_wf (ts : list tdecl) : bool :=
